@@ -193,7 +193,11 @@ def run_case(C, model, first_gen=None):
             if norm(got) != norm(exp):
                 ok = False
                 why.append("result differs from the reference")
-            if norm(argsA) != norm(argsB):
+            if getattr(C.cls, "observable", None) == "result":
+                view = lambda args: [(lambda n: n[:2] if isinstance(n, list) and n[:1] == ["<p>"] else n)(norm(a)) for a in args]
+            else:
+                view = norm
+            if view(argsA) != view(argsB):
                 ok = False
                 why.append("post-state of the arguments differs from the reference")
         res["observed"] = dict(result=norm(got), post=norm(argsA))
